@@ -8,6 +8,7 @@ import re
 
 from . import common as C
 from . import peglib as P
+from . import emitskel
 from . import batch as B
 
 FUEL = 4000
@@ -98,7 +99,7 @@ def make_inputs(ctx, g, n):
 
 def core_key(ctx, bd):
     h = hashlib.sha256()
-    for f in ("core.py", "batch.py", "peglib.py", "common.py"):
+    for f in ("core.py", "batch.py", "peglib.py", "common.py", "emitskel.py"):
         h.update(open(os.path.join(C.VERIF, "harness", f), "rb").read())
     for f in os.listdir(os.path.join(C.VERIF, "harness", "gotmpl")):
         h.update(open(os.path.join(C.VERIF, "harness", "gotmpl", f), "rb").read())
@@ -154,6 +155,7 @@ def run_core(ctx, opts=("d",), force=False):
                     else:
                         mlines.append("grammar %s/%s %d %s" % (gid, o, ptx, sexp))
                         mlines.append("gen %s/%s %d" % (gid, o, 1 if B.OPTSETS[o]["inline"] else 0))
+                        mlines.append("emit %s/%s %d %d %s" % (gid, o, 0 if B.OPTSETS[o]["noast"] else 1, 1 if B.OPTSETS[o]["inline"] else 0, P.undef_bits(nodes)))
                         if o == "d":
                             mlines.append("opt %s/d" % gid)
                 except P.ConvError as e:
@@ -220,6 +222,7 @@ def run_core(ctx, opts=("d",), force=False):
         for o, oi in gi["opts"].items():
             if "model" in oi:
                 oi["gen"] = mres.get(("gen", "%s/%s" % (gid, o)))
+                oi["emit"] = mres.get(("emit", "%s/%s/%d%d" % (gid, o, 0 if B.OPTSETS[o]["noast"] else 1, 1 if B.OPTSETS[o]["inline"] else 0)))
                 if o == "d":
                     oi["opt"] = mres.get(("opt", "%s/d" % gid))
                 if oi.get("compiles"):
@@ -227,6 +230,8 @@ def run_core(ctx, opts=("d",), force=False):
                 # call sites in the emitted code: with or without the failure branch (CheckAlwaysSucceeds)
                 try:
                     src = open(os.path.join(bt.dir, "pkgs", bt.items[(gid, o)]["pkg"], "parser.go"), encoding="utf-8", errors="replace").read()
+                    sk = emitskel.skeletons(src)
+                    oi["skel"] = ";".join(sk) if sk is not None else None
                     calls = {}
                     for m_ in re.finditer(r"^\s*(if !)?_rules\[rule(\w+)\]\(\)( \{)?\s*$", src, re.M):
                         calls.setdefault(m_.group(2), set()).add("if" if m_.group(1) else "bare")
